@@ -20,6 +20,8 @@ ASSUMPTIONS = ['pysmiles.correct_aromatic_rings recorded (may re-assign aromatic
 def oracle(ctx, case, steps, ctor_err):
     if steps is None:
         return
+    # "the fragment defined under that node's name": at every level, the definitions written for that level
+    suites.level_definitions_oracle(ctx, case, steps)
     for st in steps:
         if st['result'] != 'ok' or 'meta' not in st:
             continue
@@ -43,6 +45,17 @@ def oracle(ctx, case, steps, ctor_err):
             if have != want:
                 ctx.fail(suites.slim(case), f'level {lvl}: coarse node {k} carries fine nodes {have[:8]} but '
                                             f'{want[:8]} record it')
+            elif g is not None:
+                # what the coarse node carries is the fine graph restricted to its members: the same pairs are bonded
+                # (annotate_fragments copies no bond attributes, so orders are not part of what is carried)
+                ind = fine.subgraph(g.nodes)
+                he = sorted((min(a, b), max(a, b)) for a, b in g.edges())
+                we = sorted((min(a, b), max(a, b)) for a, b in ind.edges())
+                if he != we:
+                    miss = [e for e in we if e not in he][:4]
+                    extra = [e for e in he if e not in we][:4]
+                    ctx.fail(suites.slim(case), f'level {lvl}: the graph carried by coarse node {k} is not the fine graph '
+                                                f'restricted to its members: bonds missing {miss}, surplus {extra}')
         # copy of the template
         tmpl = {nm: g for nm, g in st['frags']}
         names = dict((k, nm) for k, nm in st['meta']['nodes'])
